@@ -25,6 +25,30 @@ func main() {
 		return
 	}
 	p.SetKnown(props.KnownNames())
+	if os.Args[1] == "calls" {
+		fn := p.Fn(os.Args[2])
+		if fn == nil {
+			fmt.Println("no such function")
+			return
+		}
+		fmt.Println("closures:")
+		for _, c := range eng.Closures(fn) {
+			fmt.Println("  ", p.FnName(c), "<-", c.String())
+		}
+		for _, f := range append([]*ssa.Function{fn}, eng.Closures(fn)...) {
+			eng.Instrs(f, func(in ssa.Instruction) {
+				if c, ok := in.(ssa.CallInstruction); ok {
+					fmt.Printf("%s: %s  [%s]\n", p.FnName(f), p.CalleeName(c), p.InstrPos(in))
+					if u, ok := c.Common().Value.(*ssa.UnOp); ok {
+						if fa, ok := u.X.(*ssa.FieldAddr); ok {
+							fmt.Printf("      cell=%q obj=%q resolve=%v\n", p.CellID(fa), p.ObjID(fa.X), eng.ResolveAll(fa.X))
+						}
+					}
+				}
+			})
+		}
+		return
+	}
 	if os.Args[1] == "aliases" {
 		for _, n := range eng.AliasNotes() {
 			fmt.Println(n)
